@@ -10,7 +10,7 @@ CHECKS = {
          "bounded exhaustive enumeration of operand tuples vs integer reference; BFS to closure of the mutation protocol",
          "Every operator, constructor and assignment form of Bits is run on every operand pair for widths 1..5 (8 thorough), "
          "on a boundary alphabet for every width 1..1023 and on mixed-width pairs, and compared with plain Python integer "
-         "arithmetic; the @=/<<=/_flip/clone/set-item protocol is explored as a state graph to closure for widths 1..3(4).",
+         "arithmetic; the @=/<<=/_flip/clone/set-item protocol is explored as a state graph to closure for widths 1..3(4); every operator result is checked to be a fresh object (compute twice, mutate the first result in place four ways, recompute) for widths 1..3 (5).",
          "Trusted: Python int arithmetic and the 60-line spec() in vt/checks/c04.py. Values outside the alphabets "
          "(interior values of wide widths) are not covered.",
          "DESIGN.md 6.C04", "E1"),
@@ -60,7 +60,7 @@ CHECKS = {
          "bounded exhaustive enumeration of struct type shapes x packed values vs an independent layout spec; exhaustive copy/assignment histories on two objects vs Python trees",
          "About 800 (quick) / 9000 (thorough) bitstruct shapes (<=3 fields (4 thorough), nested structs up to depth 3, 1-d and 2-d list fields of Bits and of structs, width <= 12 (14; 40 for the deep shapes)) are created with the "
          "real mk_bitstruct; for every packed value (width <= 8 (11 thorough); boundary patterns above) layout, both round trips, ==, hash, dict lookup, clone, deepcopy, @=, <<=/_flip and "
-         "independence of every leaf are checked; all histories of length <= 2 (3) of assignments/copies/in-place mutations on two objects are compared with plain value trees.",
+         "independence of every leaf are checked; all histories of length <= 2 (3) of assignments/copies/in-place mutations on two objects are compared with plain value trees; a second definition with the same class name and permuted fields must pack in its own order.",
          "Trusted: vt/layout.py (40 lines). Widths above 12 and more than 3 fields are not covered.",
          "DESIGN.md 6.C06", "E1 E4"),
  "C11": ("model_checking",
@@ -97,7 +97,7 @@ CHECKS = {
          "DESIGN.md 6.C15", "E1"),
  "C16": ("model_checking",
          "exhaustive input sequences on the real simulator with VCD + text-wave passes; dump read back by an independent VCD parser and compared per signal per cycle with sampled simulator values",
-         "25 designs (nets of top-level signals sharing one identifier, nets with slices, struct signals, constants tied to ports, never-changing signals, children, "
+         "27 designs (one-bit signals holding comparison results, 64- and 72-bit nets stepped between values congruent modulo 2^61-1, nets of top-level signals sharing one identifier, nets with slices, struct signals, constants tied to ports, never-changing signals, children, "
          "100- and 200-output designs that need multi-character identifier codes) are simulated for every sequence of length 3 (5) over a 4-letter (5-letter) alphabet that revisits values; "
          "every declared variable of every scope must be present once with the right width and carry, at time 100*t, the value sampled before the edge of cycle t; clock edges and "
          "the text-wave record are checked too.",
@@ -116,7 +116,7 @@ CHECKS = {
          "About 1100 designs: two writes to one carrier over all access-shape pairs (whole, overlapping/adjacent/contained slices, bits, fields, nested fields, list elements with constant and "
          "variable index, struct with list field) by the same block, two comb blocks, comb+ff, comb+lambda, block+net (from input, constant, driven wire), net+net, child/parent/grand-parent "
          "positions; undriven nets, connection loops, duplicate connections, overlapping slice nets; every port rule Type 1-9 and the loop-back rule with its legal counterpart; every "
-         "assignment operator in update / update_ff on whole signals, list elements, slices, fields. elaborate() must raise the class the analysis predicts, or nothing. "
+         "assignment operator in update / update_ff on whole signals, list elements, slices, fields; writes reaching a signal through @s.func functions (two callers, nested calls, diamonds). elaborate() must raise the class the analysis predicts, or nothing. "
          "Thorough adds ~760 three-writer designs (every multiset of three access shapes; three blocks / two in one block / one block / two blocks + a net) under all block orders and 6 hash permutations.",
          "Trusted: c09.analyze (per-bit driver sets, net source propagation, port-direction table). Designs with several simultaneous defects are not generated.",
          "DESIGN.md 6.C09", "E1 E2"),
